@@ -171,6 +171,11 @@ def main():
                     em_out = math.exp(em) if dsp == "lognormal" else em
                     if not (abs(fm - em_out) <= 1e-9 * abs(em_out) and abs(fs - math.sqrt(ev)) <= 1e-9 * math.sqrt(ev) + 1e-12):
                         run.violation(f"mc:{dg}-{dsp}", f"mu={mu} sd={sd} w={wf.tolist()} z={z}: mean/std {fm}/{fs}, estimator gives {em_out}/{math.sqrt(ev)}", rep)
+                    # the realisations handed back are the resonance frequencies that were drawn (in Hz), whatever space the statistics are taken in
+                    want_real = pos if dg == "normal" else tr
+                    if not np.allclose(real, want_real, rtol=1e-12):
+                        run.violation(f"mc:{dg}-{dsp}:realizations", f"mu={mu} sd={sd} z={z}: the returned realisations {np.asarray(real).tolist()} are not the drawn "
+                                      f"frequencies {np.asarray(want_real).tolist()}", rep)
             run.case((cfg, ci) if v > 0 and len(set(w)) > 1 else None,
                      sample=dict(means=mu, stds=sd, weights=w, z=z, exact_mean=c["mean"], exact_variance=c["var"]) if len(run.samples) < 4 and v > 0 and len(set(w)) > 1 else None)
     # reproducibility with real generators, and unchanged when all weights are multiplied by a constant
